@@ -506,7 +506,7 @@ MANIFEST = {
             "anchor (frame typing), all rotate_from_* forms delegate to rotate() with anchor/start/degrees forwarded, every validation precedes the first "
             "write to the pose including in-place writes through aliases (a rejected call changes nothing), and position/orientation are only ever "
             "written together by a fixed set of functions. The integer padding arithmetic (path_padding_param) needs linear arithmetic over unbounded "
-            "path lengths and is not decided. Also decided: both pose paths come from one padding computation, every path extension is edge padding, and only the updated object's paths are written in place (alias analysis). Round 3: rotate(None) is the single identity rotation (rank of the quaternion on the None path, P7) and each rotate_from_* hands its own unmodified parameters to the SciPy constructor (P2).",
+            "path lengths and is not decided. Also decided: both pose paths come from one padding computation, every path extension is edge padding, and only the updated object's paths are written in place (alias analysis). Round 3: rotate(None) is the single identity rotation (rank of the quaternion on the None path, P7) and each rotate_from_* hands its own unmodified parameters to the SciPy constructor (P2). Rounds 4-5: validators on the way to the SciPy constructor hand the value back unchanged (P2), no read-only view becomes a path (P8), the constructor pads for both orderings of the path lengths (P6b).",
     "design_ref": "DESIGN.md §3 C09",
     "note": "Trusted: FRAME interpreter + declarations; summaries of the validators (return their argument) and of path_padding (returns aliases of the pose paths).",
     "technique": "static analysis: frame-type abstract interpretation, structural delegation check, taint/ordering dataflow, who-may-write query",
